@@ -13,7 +13,8 @@ TRUSTED = ['PyVC executor and its encoding of Python semantics (DESIGN 2.3), z3 
            'subscription prefixes is a prefix of the first part; Poller.poll returns only registered sockets that have a message',
            'assume-guarantee (T5): the publisher stream assumed by the receiver proof is the postcondition proved for ZMQSender.send (C01.one_id_per_send, C02.wire)',
            'string facts behind the abstract Topic sort (decode(encode(t)) == t, SUB prefix <=> subscribed) are the lemmas proved in C02 (WireLemmas)']
-ASSUMPTIONS = ['per source address a message id identifies one publish (a restarted publisher re-using an id that is already partially received is outside the model)',
+ASSUMPTIONS = ['an explicit subscription names at least one topic (Filter.parse_topics yields None, never an empty list); a source subscribed to nothing is outside the shapes',
+               'per source address a message id identifies one publish (a restarted publisher re-using an id that is already partially received is outside the model)',
                'shape bound: 1..2 (quick) / 1..3 (thorough) sources per receiver, 1..2 (3) tracked clients per sender; histories, ids, topic sets, payloads unbounded',
                'topic names are non-empty and contain neither "/" nor "*" (T6)',
                'the data assembly loop at the return of recv is summarised as the pointwise map over each source\'s set (map-loop rule); its remap/duplicate logic is not re-verified here',
